@@ -478,6 +478,47 @@ def run_special(task):
                     v.config_label = "overflow,lbs=%d,distance=%s" % (lbs, dist)
                     viols.append(v)
             drv.drop(cid)
+    # (c) what a pair looks like does not depend on the runs before it: every sequence of <= 6 removed / added /
+    # unchanged lines (ending in an added or unchanged line, so that the probe pair is a run of its own), for line
+    # buffers of 0, 1 and 2 lines - the sequences include every way of filling the buffers exactly, overflowing them,
+    # and ending a run right at the limit
+    import itertools
+    probe = [b"-alpha beta gamma", b"+alpha BETA gamma"]
+
+    def probe_rows(out):
+        return [row.cells() for row in term.decode(out) if "alpha" in row.text]
+    for lbs in (0, 1, 2, 32):
+        o = {"max-line-distance": "0.6", "line-buffer-size": str(lbs), "width": "variable", "hunk-header-style": "110",
+             "hunk-header-decoration-style": "none"}
+        args = build_args(base_opts(o))
+        cid = drv.mkconfig(args)
+        prefixes = [()]
+        for L in range(1, 7 if lbs < 32 else 4):
+            prefixes += [p_ for p_ in itertools.product((b" c", b"-r", b"+a"), repeat=L) if p_[-1] != b"-r"]
+        if lbs == 32:
+            prefixes += [(b"+a",) * k_ for k_ in (32, 33, 34)] + [(b"-r",) * k_ + (b" c",) for k_ in (32, 33, 34)] + \
+                [(b"-r",) * k_ + (b"+a",) * j_ for k_ in (32, 33, 34) for j_ in (1, 33)]
+        datas = []
+        for p_ in prefixes:
+            body = [l + (b"%d" % i) for i, l in enumerate(p_)] + probe + [b" end"]
+            nm = sum(1 for l in body if l[:1] in b" -")
+            np_ = sum(1 for l in body if l[:1] in b" +")
+            datas.append(head + b"@@ -1,%d +1,%d @@\n" % (nm, np_) + b"\n".join(body) + b"\n")
+        res = drv.render(cid, datas)
+        ref = probe_rows(res[0].out) if not res[0].panic else None
+        for p_, d_, r in zip(prefixes, datas, res):
+            n += 1
+            if r.panic or ref is None:
+                continue
+            if probe_rows(r.out) != ref and not any(v.klass == "pair-depends-on-earlier-runs" for v in viols):
+                v = Violation("pair-depends-on-earlier-runs", "line-buffer-size %d: after the lines %r the pair %r is painted "
+                              "differently from the same pair at the start of a hunk" % (lbs, [x.decode() for x in p_],
+                                                                                        [x.decode() for x in probe]),
+                              d_.split(b"\n")[:-1])
+                v.args = args
+                v.config_label = "history,lbs=%d" % lbs
+                viols.append(v)
+        drv.drop(cid)
     o = {"max-line-distance": "0", "width": "variable", "hunk-header-style": "110", "hunk-header-decoration-style": "none"}
     args = build_args(base_opts(o))
     cid = drv.mkconfig(args)
